@@ -138,8 +138,9 @@ Definition unit_shape (u : str) : bool :=
     observation: ORej | OVal r | OInf neg | ONan *)
 Inductive obs := ORej | OVal (r : Q) | OInf (neg : bool) | ONan.
 
-Definition close (r x : Q) : bool :=                 (* |r - x| <= 2^-50 |x| *)
-  Qle_bool (Qabs_ (r - x)%Q * inject_Z (2 ^ 50))%Q (Qabs_ x).
+Definition close (r x : Q) : bool :=                 (* |r - x| <= 2^-50 |x|, or <= 2^-1073 in the subnormal range *)
+  Qle_bool (Qabs_ (r - x)%Q * inject_Z (2 ^ 50))%Q (Qabs_ x) ||
+  Qle_bool (Qabs_ (r - x)%Q * inject_Z (2 ^ 1073))%Q 1.
 Definition huge (x : Q) : bool := Qle_bool (inject_Z (2 ^ 1023)) (Qabs_ x).
 
 Definition c27_ok (k : Z) (s : str) (o : obs) : bool :=
